@@ -1,1 +1,2 @@
 import SweepG.Quire
+import SweepG.Sample
